@@ -60,9 +60,17 @@ class EidField(CborField):
         if isinstance(x, str):
             return x
 
+        if not isinstance(x, (list, tuple)):
+            # a byte string also indexes as integers
+            raise ValueError('EID is not an array')
         scheme_type = x[0]
+        if isinstance(scheme_type, bool) or not isinstance(scheme_type, int):
+            # True and 1.0 compare equal to 1
+            raise ValueError('EID scheme is not an integer')
         if scheme_type == EidField.TypeCode.dtn:
             ssp = x[1]
+            if isinstance(ssp, bool) or not isinstance(ssp, (int, str)):
+                raise ValueError('EID dtn SSP is not an integer or text')
             if isinstance(ssp, int):
                 ssp = EidField.WellKnownSsp(ssp).name
 
@@ -72,9 +80,14 @@ class EidField(CborField):
             )
 
         elif scheme_type == EidField.TypeCode.ipn:
+            ssp = x[1]
+            if (not isinstance(ssp, (list, tuple))
+                    or any(isinstance(seg, bool) or not isinstance(seg, int) for seg in ssp)):
+                # a byte string also iterates as integers
+                raise ValueError('EID ipn SSP is not an array of integers')
             return '{0}:{1}'.format(
                 EidField.TypeCode(scheme_type).name,
-                '.'.join(map(str, x[1])),
+                '.'.join(map(str, ssp)),
             )
 
         else:
